@@ -107,6 +107,22 @@ func scenariosFor(prop string) []scn {
 		both(flowParams{Sources: 1, Records: 2, Batch: 1, Dests: 1, AckMenu: []string{"nack", "ok"}, DLQMenu: []string{"nack", "ok"}, Stop: "stopwait", Retries: 1}, 2, 3)
 		both(flowParams{Sources: 1, Records: 2, Batch: 1, Dests: 1, AckMenu: onlyOK, Stop: "stopwait"}, 2, 3)
 		both(flowParams{Sources: 1, Records: 2, Batch: 1, Dests: 2, AckMenu: []string{"ok", "err"}, Stop: "force", Retries: 1}, 1, 2)
+	case "C11":
+		hist := [][]string{
+			{"stop", "start", "stopwait"},
+			{"stop", "wait", "start", "stopwait"},
+			{"stopwait", "start", "stop", "wait"},
+			{"stop", "start", "stop", "start"},
+			{"stopall", "start", "stopwait"},
+			{"force", "wait", "start", "stopwait"},
+			{"start", "stop", "stop", "wait"},
+		}
+		for _, h := range hist {
+			both(flowParams{Sources: 1, Records: 2, Batch: 1, Dests: 1, AckMenu: onlyOK, Ctl: h}, 2, 3)
+		}
+		both(flowParams{Sources: 1, Records: 2, Batch: 1, Dests: 1, AckMenu: []string{"ok", "err"}, ReadMenu: []string{"ok", "err"}, Ctl: []string{"stop", "wait", "start", "stopwait"}, Retries: 1}, 2, 3)
+		both(flowParams{Sources: 1, Records: 2, Batch: 1, Dests: 1, AckMenu: []string{"ok", "err"}, Ctl: []string{"stopwait", "start", "stopwait"}, Retries: 2}, 2, 3)
+		both(flowParams{Sources: 1, Records: 1, Batch: 1, Dests: 2, AckMenu: onlyOK, GateDestOpen: true, Ctl: []string{"stop", "start", "stopwait"}, Retries: 1}, 2, 3)
 	case "C06":
 		both(flowParams{Sources: 1, Records: 3, Batch: 1, Dests: 1, AckMenu: onlyOK, Stop: "stopwait"}, 2, 4)
 		both(flowParams{Sources: 1, Records: 2, Batch: 1, Dests: 2, AckMenu: onlyOK, Stop: "stopwait"}, 2, 3)
